@@ -1,7 +1,7 @@
 package props
 
 import (
-	"golang.org/x/tools/go/ssa"
+	"verif/third_party/xtools/go/ssa"
 
 	"verif/internal/core"
 )
